@@ -118,6 +118,9 @@ def Memo.asCacheKey (m : Memo) : Str × Memo :=
 parts, `PartialEq`/`Hash` look at `key` only. -/
 def Memo.setFields (m : Memo) (k : Key) : Memo := { m with key := k }
 
+/-- the memo is empty or holds the text of the current fields. -/
+def Memo.fresh (m : Memo) : Prop := m.cached = none ∨ m.cached = some (cacheKey m.key)
+
 /-! ### `cascette_protocol::format_cache_key(prefix, endpoint)` (optimized.rs) -/
 
 /-- `buf.push_str(prefix); buf.push(':'); buf.push_str(endpoint)`. -/
